@@ -246,6 +246,18 @@ def run(ctx):
         C18_server.check(ctx, prog_c)
         import C18_candidate
         C18_candidate.check(ctx, prog_c)
+        import C18_ready
+        import C18_ready_replay
+        C18_ready.check(ctx, prog_c)
+        try:
+            bad, n = C18_ready_replay.battery()
+            ctx.translator_validated += n
+            if bad:
+                rec = {'name': 'ready.native_battery', 'group': 'C18.ready', 'solver_s': 0.0, 'status': 'cex'}
+                ctx.obligations.append(rec)
+                ctx.handle_cex(rec['name'], 'C18.ready.native', None, lambda _m: {'replayed': True, 'detail': 'real NodeServer ConnectionReady: %s' % bad[:3], 'replay': {'which': 'ready_battery'}}, rec)
+        except RuntimeError as e:
+            ctx.inconclusive.append('ready native battery unavailable: %s' % str(e)[-300:])
     except (Inconclusive, Unmodelled) as e:
         ctx.inconclusive.append('C18 server slice: %s: %s' % (type(e).__name__, str(e)[:300]))
     th.join()
@@ -327,6 +339,13 @@ def sample_scenarios():
 def replay_file(path):
     d = json.load(open(path))
     rp = d.get('replay') or {}
+    if rp.get('which') in ('ready', 'ready_battery'):
+        import C18_ready_replay
+        bad, _n = C18_ready_replay.battery()
+        if rp['which'] == 'ready':
+            bad += C18_ready_replay.evaluate(rp['rp']['sessions'], rp['rp']['auth'])[0]
+        print('native NodeServer ConnectionReady:', bad)
+        return 1 if bad else 0
     if rp.get('which') == 'candidate':
         import C18_candidate_replay
         r = C18_candidate_replay.replay(rp['rp'])
